@@ -111,6 +111,20 @@ def run(ctx):
                detail='append has a write path of its own')
     if ap is not None:
         append_is_one_chunk(ctx, ap, f)
+        append_always_delegates(ctx, ap, f)
+
+
+def append_always_delegates(ctx, ap, f, clause='D1'):
+    """Every normal path through append() passes the iterappend call: all validation of an append (access mode, trailing
+    shape and rank, conversion) lives behind it, so an early return — e.g. for zero-length input — silently accepts
+    calls that must be rejected."""
+    g = cfg_of(ap)
+    calls = {g.node_for(n) for n, cal in ctx.E.callees(ap) if cal is f and isinstance(n, ast.Call)}
+    ok = bool(calls) and not g.can_reach(g.entry, g.exit, avoid=calls, skip_labels=('exc',))
+    ctx.decide(ok, 'R-DOM', clause, ap, None, 'append-always-delegates',
+               'Array.append reaches iterappend on every normal path (no shortcut around the validation)',
+               detail='a path through append returns without calling iterappend: whatever that path accepts (e.g. '
+                      'zero-length input of any trailing shape, or any input on a read-only array) is not validated')
 
 
 def append_is_one_chunk(ctx, ap, f):
@@ -246,6 +260,26 @@ def recover(ctx, f, cls, node, what, committer, appenders):
                     ctx.bad('R-ORDER', 'D1', f, r.node, construct + '::commit-before-resize', inst,
                             detail='the size used for the cut is read before the commit updated it')
                     ok_all = False
+    # the recovery commit and the success commit that follows the same try count the same thing
+    g_ = cfg_of(f)
+    after = [n for n, cal in ctx.E.callees(f) if cal is committer and isinstance(n, ast.Call) and
+             not any(p is tr for p, _ in enclosing(f.node, n)) and g_.can_reach(g_.node_for(tr.body[-1]), g_.node_for(n),
+                                                                            skip_labels=('exc',))]
+    inh = [n for n, cal in ctx.E.callees(f) if cal is committer and isinstance(n, ast.Call) and
+           any(isinstance(p, ast.ExceptHandler) and any(h is p for h in hs) for p, _ in enclosing(f.node, n))]
+    if after and inh:
+        from ..pathcond import inline as _inl
+        d_ok = commit_delta(ctx, committer, after[0], f)
+        for hc in inh:
+            d_h = commit_delta(ctx, committer, hc, f)
+            same = d_ok is not None and d_h is not None and norm(_inl(f, d_ok)) == norm(_inl(f, d_h))
+            if not same:
+                ctx.bad('R-SIB', 'D1', f, hc, construct + '::same-count-as-success', inst,
+                        detail=f'the recovery path commits `{norm(d_h) if d_h is not None else None}` but the success path commits '
+                               f'`{norm(d_ok) if d_ok is not None else None}`: rows that the success path counts (e.g. a first chunk '
+                               f'written before the loop) are dropped from the length — and cut from the file — when a later '
+                               f'chunk fails')
+                ok_all = False
     if ok_all:
         ctx.ok('R-RECOVER', 'D1', f, node, construct, inst +
                ' (catch-all; commit of completed chunks; cut to committed byte size; re-raise)')
